@@ -364,6 +364,21 @@ func (concEngine) Corpus() []Case {
 			{gid: -1, methods: []string{"GET", "POST"}, pattern: "/*", main: 102}},
 		reqs:  []ccReq{{"GET", "/g/5"}, {"GET", "/g/s"}, {"POST", "/zz/y"}, {"GET", "/g/5"}},
 		sched: []int{0, 1, 2, 3, 0, 1, 2, 3}})
+	// a handler keeps a Copy() of its context (data: route name, route path, user=alice); the requests served after
+	// its request has ended get the pooled context back and set user=bob: the copy must not change
+	add("copy-reuse", gCase{cache: -1,
+		progs: map[int]string{100: "SD:" + hx("user") + ":" + hx("alice") + ",CP,W:61", 101: "SD:" + hx("user") + ":" + hx("bob") + ",W:70"},
+		routes: []gRoute{{gid: -1, methods: get, pattern: "/jobs/{id}", main: 100}, {gid: -1, methods: get, pattern: "/ping", main: 101}},
+		reqs:  []ccReq{{"GET", "/jobs/7"}, {"GET", "/ping"}, {"GET", "/ping"}, {"GET", "/jobs/8"}},
+		sched: []int{0, 1, 2, 3}})
+	// the copy is taken in a global middleware before Next(), the request goes on (and sets more data) and ends
+	// while two other requests are parked; a 404 and a cached dynamic route follow on the pooled context
+	add("copy-parked", gCase{cache: 1, mna: true,
+		progs: map[int]string{1: "SD:6b31:31,CP,P,N,P", 2: "P,N", 100: "P,SD:6b32:32,SP,CP,W:64", 101: "W:73"},
+		uses:  [][]int{{1}, {2}},
+		routes: []gRoute{{gid: -1, methods: get, pattern: "/d0/{id}", name: "d", main: 100}, {gid: -1, methods: get, pattern: "/s0", main: 101}},
+		reqs:  []ccReq{{"GET", "/d0/7"}, {"GET", "/s0"}, {"GET", "/nope"}, {"GET", "/d0/7"}, {"POST", "/s0"}},
+		sched: []int{1, 2, 0, 0, 0, 0, 0, 3, 1, 4, 3, 2, 3, 1, 4}})
 	// schedules that are not complete / mention finished requests
 	add("partial", gCase{cache: -1, noEnd: true,
 		progs:  map[int]string{100: "P,W:42,P"},
@@ -612,7 +627,55 @@ func ccGenCase(r *Rand, thorough bool, nReqForce int) (*gCase, string) {
 		}
 		g.sched = append(g.sched, cur)
 	}
+	// stream "copy" (drawn last: everything above is what the same seed generated before the stream existed):
+	// one or two handlers that run early in a chain (global middleware, main handlers) keep a Copy() of their
+	// context; in half of the cases request 0 is run to its end first, so that the requests started afterwards
+	// get its pooled context while the copy is still watched.
+	copyStream := false
+	if r.Chance(1, 5) {
+		var cands []int
+		for _, u := range g.uses {
+			cands = append(cands, u...)
+		}
+		for _, rt := range g.routes {
+			cands = append(cands, rt.main, rt.main) // main handlers twice: they run on every matched request
+			for _, c := range rt.useCalls {
+				cands = append(cands, c...)
+			}
+		}
+		for i, n := 0, r.Range(1, 2); i < n; i++ {
+			id := cands[r.Intn(len(cands))]
+			var acts []string
+			if g.progs[id] != "" {
+				acts = strings.Split(g.progs[id], ",")
+			}
+			// sometimes with a value of its own in the data map, set just before the copy is taken
+			ins := []string{"CP"}
+			if r.Chance(1, 2) {
+				ins = []string{"SD:" + hx(r.Pick(keys)) + ":" + hx(fmt.Sprintf("c%d", id)), "CP"}
+			}
+			p := r.Intn(len(acts) + 1)
+			acts = append(acts[:p:p], append(ins, acts[p:]...)...)
+			g.progs[id] = strings.Join(acts, ",")
+		}
+		if r.Chance(1, 2) {
+			parks := 0
+			for _, p := range g.progs {
+				for _, t := range strings.Split(p, ",") {
+					if t == "P" {
+						parks++
+					}
+				}
+			}
+			first := make([]int, parks+1) // request 0 parks at most once per P of the table
+			g.sched = append(first, g.sched...)
+		}
+		copyStream = true
+	}
 	tag := fmt.Sprintf("n%d", nReq)
+	if copyStream {
+		tag = "copy/" + tag
+	}
 	if g.cache >= 0 {
 		tag += fmt.Sprintf("/cache%d", g.cache)
 	} else {
